@@ -184,7 +184,7 @@ def is_mutable(x):
 class C09(Check):
     ID = 'C09'
     LEVEL = 'exploration'
-    BUDGET = {'quick': 30, 'thorough': 300}
+    BUDGET = {'quick': 30, 'thorough': 240}
     RULE = ('case = (variant, context, input). Variants: 12 accumulator/seed combinations (immutable int/float/tuple folds; list building by copy and by in-place append; in-place dict and array; '
             'seeds given as values - incl. a non-empty mutable value - and as factories) x reduce on/off x terminators (pure and in-place) - and the 21 operators defined through scan '
             '(count, sum, mean, min, max, variance with reduce on/off, to_list, to_array, batch, distinct_until_changed, progress, dist.update). Contexts: plain observable, one multiplexed key, '
@@ -198,7 +198,7 @@ class C09(Check):
     REQUIRED_OBSERVED = ['accumulator_calls', 'terminator_calls', 'factory_calls', 'lifetimes_checked', 'identity_checks']
 
     def generate(self, rng, tier, shard, nshards):
-        n = 10000 if tier == 'quick' else 40000
+        n = 10000 if tier == 'quick' else 10 ** 7
         ctxs = list(CONTEXTS)
         for k in range(n):
             ctx = ctxs[k % len(ctxs)]
